@@ -171,6 +171,64 @@ def backtracking(rep, prog):
         rep.anchor_missing(rule, 'alt nodes in the grammar (found %d)' % nalt)
 
 
+def recursion_is_bracketed(rep, prog):
+    """R16.r - recursion depth follows the NESTING of the document, not its length: on every cycle of parser references
+    at least one reference is followed, in its own sequence, by a mandatory closing token (`list<` T `>`, `[` v.. `]`,
+    `{` k: v `}`), so each level of recursion owns a pair of delimiters. A cycle without one (e.g. `-` INT, or a
+    right-recursive `a (op a)?`) adds a stack frame per token: 64 KiB of input then exhausts a 2 MiB stack at nesting depth 0."""
+    import grammar
+    rule = 'R16.r'
+    g = grammar.Grammar(prog)
+
+    def closed_after(n):
+        cur = n
+        while cur.parent is not None:
+            p = cur.parent
+            if p.kind == 'seq':
+                for sib in p.kids[cur.idx + 1:]:
+                    for x in g.walk(sib):
+                        pass
+                    # a mandatory literal token somewhere in a later, non-nullable sibling
+                    if not g.attr('nullable', sib) and any(x.kind == 'tag' or (x.kind == 'cc' and (x.text or '').startswith('char(')) for x in g.walk(sib)):
+                        return True
+            cur = p
+        return False
+    edges = {}
+    for name, ts in g.trees.items():
+        for t in ts:
+            for n in g.walk(t):
+                if n.kind == 'ref' and n.text in g.trees:
+                    ok = closed_after(n)
+                    k = (name, n.text)
+                    edges[k] = edges.get(k, True) and ok
+        for d in g.direct_calls.get(name, []):
+            if d in g.trees:
+                edges[(name, d)] = edges.get((name, d), True) and False
+    # cycles made of unbracketed references only
+    open_graph = {}
+    for (a, b), ok in edges.items():
+        if not ok:
+            open_graph.setdefault(a, set()).add(b)
+        open_graph.setdefault(b, set())
+    comps = [c for c in sccs(open_graph) if len(c) > 1 or c[0] in open_graph.get(c[0], ())]
+    full = {}
+    for (a, b) in edges:
+        full.setdefault(a, set()).add(b)
+        full.setdefault(b, set())
+    all_cycles = [sorted(c) for c in sccs(full) if len(c) > 1 or c[0] in full.get(c[0], ())]
+    if not all_cycles:
+        rep.anchor_missing(rule, 'recursive parser cycles (Ty, ConstValue)')
+        return
+    bad_members = {x for c in comps for x in c}
+    for c in all_cycles:
+        key = '%s|cycle %s' % (rule, ','.join(c))
+        loose = sorted(set(c) & bad_members)
+        if loose:
+            rep.bad(rule, key, g.bodies[loose[0]].loc(), 'the parsers %s refer to each other (or to themselves) through references that no closing token follows: every such token adds a stack frame, so recursion depth grows with the length of the text instead of its nesting (a long run of the prefix exhausts the stack)' % loose)
+        else:
+            rep.ok(rule, key, 'every way round the cycle passes a reference that is followed by a mandatory closing token', g.bodies[c[0]].loc())
+
+
 def run(ctx):
     rep = Report('C16')
     prog = mirlib.load_program([ws_facts('ws')])
@@ -189,6 +247,7 @@ def run(ctx):
     rep.floor('R16.p', 25)
     int_constant_producers(rep, prog, cg)
     backtracking(rep, prog)
+    recursion_is_bracketed(rep, prog)
     # recursion inventory
     g = {}
     for b in bodies:
